@@ -91,7 +91,7 @@ class Naming:
         pref = ID_PREFIX[(self.scheme // len(NODE_NAMES)) % len(ID_PREFIX)][role]
         i = int(i)
         idx = [5, 3, 8, 1, 9, 2, 7, 4, 6, 0, 11, 10][i] if i < 12 else 100 + i
-        return f'{pref}{idx}'
+        return f'{pref}_{idx}'
 
 
 def stable_hash(obj) -> int:
